@@ -91,6 +91,11 @@ struct DecState {
     int probe_id = -1;
     int n_queries = 0, n_calls = 0;
     bool sched_noncanonical = false;
+    // C16: reference map spelling -> pronunciation for every word touched by an add or lookup, alternates per base
+    std::map<std::string, std::string> dict_model;             // spellings known to be present -> "PH PH"
+    std::map<std::string, std::set<std::string>> alt_model;    // base -> spellings of its numbered alternates
+    std::map<std::string, std::pair<int, std::string>> old_words; // sampled pre-existing words: id, pronunciation
+    bool dict_sampled = false;
     bool scores_commensurable = false; // the active search was built with wip = pip = 1
     int align_failed_at_frame = -1;
 };
@@ -926,6 +931,195 @@ struct Exec {
             }
     }
 
+    // ---- C16: dictionary additions take effect and never disturb existing entries
+    static std::string norm_pron(const std::string &p)
+    {
+        std::string o, cur;
+        for (char c : p + " ") {
+            if (c == ' ' || c == '\t' || c == '\n' || c == '\r' || c == '\f' || c == '\v') {
+                if (!cur.empty())
+                    o += (o.empty() ? "" : " ") + cur;
+                cur.clear();
+            } else
+                cur += c;
+        }
+        return o;
+    }
+    std::string lib_lookup(DecState &s, const std::string &w, bool *present)
+    {
+        char *p = decoder_lookup_word(s.d, w.c_str());
+        *present = p != nullptr;
+        std::string r = p ? p : "";
+        ckd_free(p);
+        return r;
+    }
+    // numbered alternates of base, read off the public dict_t chain
+    std::set<std::string> lib_alts(DecState &s, const std::string &base, bool *chain_ok)
+    {
+        std::set<std::string> r;
+        *chain_ok = true;
+        dict_t *d = s.d->dict;
+        s3wid_t b = dict_wordid(d, base.c_str());
+        if (b == BAD_S3WID)
+            return r;
+        int guard = 0;
+        for (s3wid_t a = dict_nextalt(d, b); a != BAD_S3WID && a >= 0 && guard < 100000; a = dict_nextalt(d, a), ++guard) {
+            if (a >= dict_size(d)) {
+                *chain_ok = false;
+                break;
+            }
+            if (dict_basewid(d, a) != b)
+                *chain_ok = false;
+            r.insert(dict_wordstr(d, a));
+        }
+        return r;
+    }
+    void dict_touch(DecState &s, const std::string &w)
+    {
+        // first contact with a spelling: the library's current state becomes the model's
+        if (w.empty() || s.dict_model.count(w) || s.dict_model.count("\001absent:" + w))
+            return;
+        bool present;
+        std::string p = lib_lookup(s, w, &present);
+        if (present)
+            s.dict_model[w] = p;
+        else
+            s.dict_model["\001absent:" + w] = "";
+        std::string b = base_of(w);
+        if (!s.alt_model.count(b)) {
+            bool ok;
+            s.alt_model[b] = lib_alts(s, b, &ok);
+        }
+    }
+    bool model_has(DecState &s, const std::string &w) { return s.dict_model.count(w) != 0; }
+    void dict_sample_old(DecState &s)
+    {
+        if (s.dict_sampled)
+            return;
+        s.dict_sampled = true;
+        dict_t *d = s.d->dict;
+        int n = dict_size(d);
+        for (int k = 0; k < 24 && n > 0; ++k) {
+            int wid = (int)(((int64_t)k * 7919 + 13) % n);
+            const char *w = dict_wordstr(d, wid);
+            if (!w)
+                continue;
+            bool present;
+            s.old_words[w] = { wid, lib_lookup(s, w, &present) };
+        }
+    }
+    void dict_check_all(DecState &s, int opi, const char *when)
+    {
+        out.checks++;
+        for (auto &kv : s.dict_model) {
+            if (kv.first.compare(0, 8, "\001absent:") == 0) {
+                bool present;
+                lib_lookup(s, kv.first.substr(8), &present);
+                if (present)
+                    viol("C16", "dictionary_unchanged", "absent_word_appeared", std::string(when) + ": word '" + kv.first.substr(8) + "' appeared without a successful addition", opi);
+                continue;
+            }
+            bool present;
+            std::string p = lib_lookup(s, kv.first, &present);
+            if (!present)
+                viol("C16", "existing_entries_kept", "word_lost", std::string(when) + ": word '" + kv.first + "' is no longer in the dictionary", opi);
+            else if (p != kv.second)
+                viol("C16", "existing_entries_kept", "pronunciation_changed", std::string(when) + ": word '" + kv.first + "' now reads '" + p + "', was '" + kv.second + "'", opi);
+        }
+        for (auto &kv : s.alt_model) {
+            bool ok;
+            std::set<std::string> a = lib_alts(s, kv.first, &ok);
+            if (!ok)
+                viol("C16", "alternate_chain", "corrupt", std::string(when) + ": the alternate chain of '" + kv.first + "' is corrupt", opi);
+            else if (a != kv.second) {
+                std::string got, want;
+                for (auto &x : a) got += x + " ";
+                for (auto &x : kv.second) want += x + " ";
+                viol("C16", "alternate_chain", "members", std::string(when) + ": alternates of '" + kv.first + "' are {" + got + "}, expected {" + want + "}", opi);
+            }
+        }
+        for (auto &kv : s.old_words) {
+            s3wid_t wid = dict_wordid(s.d->dict, kv.first.c_str());
+            bool present;
+            std::string p = lib_lookup(s, kv.first, &present);
+            if (wid != kv.second.first || p != kv.second.second)
+                viol("C16", "existing_entries_kept", "old_word_disturbed", std::string(when) + ": pre-existing word '" + kv.first + "' changed identity or pronunciation", opi);
+        }
+    }
+    void do_add_word(DecState &s, const Json &op, int opi)
+    {
+        const std::string word = op.gets("word"), phones = op.gets("phones");
+        dict_sample_old(s);
+        dict_touch(s, word);
+        dict_touch(s, base_of(word));
+        int size_before = dict_size(s.d->dict);
+        // expected outcome, from the property text
+        const Lang &L = lang(lang_of(s.tmpl));
+        std::string np = norm_pron(phones);
+        bool unknown_phone = false;
+        {
+            std::string cur;
+            for (char c : np + " ") {
+                if (c == ' ') {
+                    if (!cur.empty() && std::find(L.phones.begin(), L.phones.end(), cur) == L.phones.end())
+                        unknown_phone = true;
+                    cur.clear();
+                } else
+                    cur += c;
+            }
+        }
+        std::string base = base_of(word);
+        const char *why = nullptr;
+        if (word.empty())
+            why = "empty_word";
+        else if (np.empty())
+            why = "empty_pronunciation";
+        else if (unknown_phone)
+            why = "unknown_phone";
+        else if (model_has(s, word))
+            why = "duplicate";
+        else if (base != word && !model_has(s, base))
+            why = "alternate_without_base";
+        int rv = decoder_add_word(s.d, word.c_str(), phones.c_str(), op.getb("update", true));
+        out.events.i64(rv >= 0);
+        out.checks++;
+        out.probes[why ? std::string("dict.expected_reject.") + why : "dict.expected_accept"]++;
+        if (why) {
+            if (rv >= 0)
+                viol("C16", "rejected_add_reports_failure", why, "adding '" + word + "' / '" + phones + "' (" + why + ") reported success", opi);
+            else {
+                if (dict_size(s.d->dict) != size_before)
+                    viol("C16", "rejected_add_leaves_dictionary_unchanged", "size", "a rejected addition changed the dictionary size", opi);
+                dict_check_all(s, opi, "after a rejected addition");
+            }
+            if (rv >= 0) { // keep the model in step with what the library did, the violation is already recorded
+                s.dict_model.erase("\001absent:" + word);
+                bool present;
+                s.dict_model[word] = lib_lookup(s, word, &present);
+            }
+            return;
+        }
+        if (rv < 0) {
+            viol("C16", "valid_add_accepted", "refused", "adding '" + word + "' / '" + np + "' was refused", opi);
+            return;
+        }
+        s.dict_model.erase("\001absent:" + word);
+        s.dict_model[word] = np;
+        if (base != word)
+            s.alt_model[base].insert(word);
+        else if (!s.alt_model.count(word))
+            s.alt_model[word] = {};
+        if (dict_size(s.d->dict) != size_before + 1)
+            viol("C16", "addition_takes_effect", "size", "an accepted addition did not grow the dictionary by one", opi);
+        if (dict_wordid(s.d->dict, word.c_str()) != rv)
+            viol("C16", "addition_takes_effect", "id", "decoder_add_word returned id " + std::to_string(rv) + " but the word is found under another id", opi);
+        if (base != word && dict_basewid(s.d->dict, rv) != dict_wordid(s.d->dict, base.c_str()))
+            viol("C16", "alternate_linked_to_base", "basewid", "alternate '" + word + "' is not linked to its base word", opi);
+        if (size_before / 4096 != (size_before + 1) / 4096)
+            out.probes["dict.realloc"]++;
+        dict_check_all(s, opi, "after an accepted addition");
+    }
+
     // ---- ops
     bool load_grammar(DecState &s, const Json &g, int opi)
     {
@@ -1173,9 +1367,42 @@ struct Exec {
             } else if (o == "add_word") {
                 if (s.in_utt)
                     end_utt(s, Json::object(), opi);
-                int rv = decoder_add_word(s.d, op.gets("word").c_str(), op.gets("phones").c_str(), op.getb("update", true));
-                out.events.i64(rv);
-                out.probes[rv >= 0 ? "dict.word_added" : "dict.add_refused"]++;
+                if (profile == "C16")
+                    do_add_word(s, op, opi);
+                else {
+                    int rv = decoder_add_word(s.d, op.gets("word").c_str(), op.gets("phones").c_str(), op.getb("update", true));
+                    out.events.i64(rv);
+                    out.probes[rv >= 0 ? "dict.word_added" : "dict.add_refused"]++;
+                }
+            } else if (o == "bulk_add") {
+                // growth past the preallocated table: many plain additions without search update
+                if (s.in_utt)
+                    end_utt(s, Json::object(), opi);
+                dict_sample_old(s);
+                int n = (int)op.geti("n", 4200);
+                const Lang &L = lang(lang_of(s.tmpl));
+                Rng br((uint64_t)op.geti("seed", 1));
+                int before = dict_size(s.d->dict);
+                for (int k = 0; k < n; ++k) {
+                    std::string w = "bulk" + std::to_string(k) + "x";
+                    std::string ph = br.pick(L.phones) + " " + br.pick(L.phones);
+                    if (decoder_add_word(s.d, w.c_str(), ph.c_str(), 0) < 0) {
+                        viol("C16", "valid_add_accepted", "bulk", "bulk addition " + std::to_string(k) + " was refused", opi);
+                        break;
+                    }
+                    if (k % 997 == 0) {
+                        s.dict_model[w] = ph;
+                        s.alt_model[w] = {};
+                    }
+                }
+                if (before / 4096 != dict_size(s.d->dict) / 4096 || dict_size(s.d->dict) > 4096)
+                    out.probes["dict.realloc"]++;
+                dict_check_all(s, opi, "after bulk additions");
+            } else if (o == "lookup") {
+                dict_sample_old(s);
+                dict_touch(s, op.gets("word"));
+                dict_check_all(s, opi, "lookup");
+                out.probes["dict.lookup"]++;
             } else if (o == "frate") {
                 if (s.in_utt)
                     end_utt(s, Json::object(), opi);
@@ -1615,7 +1842,7 @@ static const char *pick_tmpl(Rng &r)
 
 struct DecWorld : World {
     const char *name() const override { return "dec"; }
-    std::vector<std::string> properties() const override { return { "C01", "C03", "C04", "C07", "C08", "C11", "C12", "C14" }; }
+    std::vector<std::string> properties() const override { return { "C01", "C03", "C04", "C07", "C08", "C11", "C12", "C14", "C16" }; }
     int64_t default_runs(const std::string &p, int tier) const override
     {
         if (p == "C07" || p == "C08")
@@ -1626,6 +1853,8 @@ struct DecWorld : World {
             return tier ? 50000 : 1200;
         if (p == "C14")
             return tier ? 50000 : 1200;
+        if (p == "C16")
+            return tier ? 50000 : 1400;
         return tier ? 60000 : 1600;
     }
     int watchdog_s(const std::string &) const override { return 120; }
@@ -1645,6 +1874,13 @@ struct DecWorld : World {
             return common + "C08: 2-3 decoders with 1-5 earlier utterances each (any grammar/audio/mode/outcome), interleaved call by call, then a probe utterance (decoded twice) whose "
                             "record must equal that of a pristine sibling process. Non-trivial: the probed decoder had at least one earlier utterance and the probe produced a "
                             "segmentation; distinct = distinct plan digest";
+        if (p == "C16")
+            return common + "C16: histories of decoder_add_word (new words, numbered alternates of new and existing words, duplicates, unknown phone, alternate without base, empty word, "
+                            "empty/blank pronunciation, 1- to 12-phone words, 4200 bulk additions to cross the table growth) interleaved with lookups, grammar loads and alignment texts using "
+                            "the new words and short utterances. A reference map spelling -> (pronunciation, alternates per base) is stepped in lock-step: expected accept/reject from the "
+                            "property text, lookups, ids, base links, alternate chains walked through the public dict_t, dictionary size, 24 sampled pre-existing words keep id and "
+                            "pronunciation; after a rejected add everything touched so far must be unchanged. Non-trivial: at least one accepted addition and one later lookup or decode; "
+                            "distinct = distinct plan digest";
         if (p == "C14")
             return common + "C14: decoder_result_json(d, start, level) is requested at plan-chosen instants (before any utterance, right after start_utt, on filler-only and partial "
                             "results, after end_utt) with level 0/1/2, start offsets {0, 1.5, 1e6, -2, 0.0005} and frame rates {50, 100, 125} (decoder_reinit_feat); word spellings with quotes, "
@@ -1771,6 +2007,146 @@ struct DecWorld : World {
             int nu = (int)r.weighted({ 0, 65, 30, 5 });
             for (int u = 0; u < nu; ++u)
                 g.utterance(0, t, u == 0 || r.chance(0.5), false, r.chance(0.2), r.chance(0.1), 48000, r.chance(0.8) ? 0.4 : 0.1, r.chance(0.2), r.chance(0.3));
+        } else if (prop == "C16") {
+            std::string t = pick_tmpl(r);
+            add_dec(t);
+            g.allow_align = false;
+            const Lang &L = lang(lang_of(t));
+            std::vector<std::string> fresh, pool;
+            int nf = (int)r.range(2, 6);
+            for (int i = 0; i < nf; ++i) {
+                std::string w;
+                int len = (int)r.range(1, 9);
+                for (int k = 0; k < len; ++k)
+                    w += (char)('a' + r.below(26));
+                fresh.push_back("zq" + w);
+            }
+            auto pron = [&](int n) {
+                std::string p;
+                for (int k = 0; k < n; ++k)
+                    p += (k ? (r.chance(0.1) ? "  " : " ") : "") + r.pick(L.phones);
+                return p;
+            };
+            int nops = (int)r.range(4, 30);
+            std::vector<std::string> added;
+            if (r.chance(0.03)) {
+                Json b = Json::object();
+                b.set("op", "bulk_add");
+                b.set("n", 4200);
+                b.set("seed", (long long)(r.next() & 0xffff));
+                g.push(b, 0);
+            }
+            for (int i = 0; i < nops; ++i) {
+                switch (r.weighted({ 30, 14, 8, 8, 5, 4, 4, 12, 8, 7 })) {
+                case 0: { // new word
+                    Json a = Json::object();
+                    a.set("op", "add_word");
+                    std::string w = r.pick(fresh);
+                    a.set("word", w);
+                    a.set("phones", pron((int)r.pick(std::vector<int> { 1, 1, 2, 3, 4, 5, 8, 12 })));
+                    a.set("update", r.chance(0.6));
+                    g.push(a, 0);
+                    added.push_back(w);
+                    break;
+                }
+                case 1: { // numbered alternate of a fresh or existing word
+                    Json a = Json::object();
+                    a.set("op", "add_word");
+                    std::string b = r.chance(0.6) ? r.pick(fresh) : r.pick(L.vocab);
+                    std::string w = b + "(" + std::to_string(r.range(2, 5)) + ")";
+                    a.set("word", w);
+                    a.set("phones", pron((int)r.range(1, 5)));
+                    a.set("update", r.chance(0.6));
+                    g.push(a, 0);
+                    added.push_back(w);
+                    break;
+                }
+                case 2: { // duplicate of something already there (or added earlier in this run)
+                    Json a = Json::object();
+                    a.set("op", "add_word");
+                    a.set("word", !added.empty() && r.chance(0.6) ? r.pick(added) : r.pick(L.vocab));
+                    a.set("phones", pron((int)r.range(1, 4)));
+                    g.push(a, 0);
+                    break;
+                }
+                case 3: { // unknown phone
+                    Json a = Json::object();
+                    a.set("op", "add_word");
+                    a.set("word", r.pick(fresh) + "u");
+                    a.set("phones", pron((int)r.range(0, 3)) + " QQX " + pron((int)r.range(0, 2)));
+                    g.push(a, 0);
+                    break;
+                }
+                case 4: { // alternate without base
+                    Json a = Json::object();
+                    a.set("op", "add_word");
+                    a.set("word", "nobase" + std::to_string(r.below(5)) + "(2)");
+                    a.set("phones", pron(2));
+                    g.push(a, 0);
+                    break;
+                }
+                case 5: { // empty word
+                    Json a = Json::object();
+                    a.set("op", "add_word");
+                    a.set("word", "");
+                    a.set("phones", pron(2));
+                    g.push(a, 0);
+                    break;
+                }
+                case 6: { // empty or blank pronunciation
+                    Json a = Json::object();
+                    a.set("op", "add_word");
+                    a.set("word", r.pick(fresh) + "e");
+                    a.set("phones", r.pick(std::vector<std::string> { "", " ", "  \t " }));
+                    g.push(a, 0);
+                    break;
+                }
+                case 7: { // lookup of a touched or old word
+                    Json l = Json::object();
+                    l.set("op", "lookup");
+                    l.set("word", !added.empty() && r.chance(0.5) ? r.pick(added) : (r.chance(0.5) ? r.pick(L.vocab) : r.pick(fresh)));
+                    g.push(l, 0);
+                    break;
+                }
+                case 8: { // an utterance whose alignment text uses words added so far (those refused simply make the text fail)
+                    std::string text;
+                    Nfa a;
+                    std::vector<std::string> ws;
+                    int nw = (int)r.range(1, 4);
+                    for (int k = 0; k < nw; ++k)
+                        ws.push_back(!added.empty() && r.chance(0.6) ? r.pick(added) : r.pick(L.vocab));
+                    a.n = (int)ws.size() + 1;
+                    a.finals = { (int)ws.size() };
+                    for (size_t k = 0; k < ws.size(); ++k) {
+                        text += (k ? " " : "") + ws[k];
+                        a.add((int)k, (int)k + 1, base_of(ws[k]));
+                    }
+                    Json go = Json::object();
+                    go.set("op", "grammar");
+                    Json gg = Json::object();
+                    gg.set("kind", "align");
+                    gg.set("text", text);
+                    gg.set("nfa", a.to_json());
+                    go.set("g", gg);
+                    g.push(go, 0);
+                    g.utterance(0, t, false, false, r.chance(0.5), false, 16000, 0.2, false, false);
+                    break;
+                }
+                default: { // a generated grammar over old and new words
+                    std::vector<std::string> voc = L.vocab;
+                    for (auto &w : added)
+                        if (base_of(w) == w)
+                            voc.push_back(w);
+                    Json go = Json::object();
+                    go.set("op", "grammar");
+                    go.set("g", r.chance(0.5) ? grammar::gen_jsgf(r, added.empty() ? L.vocab : std::vector<std::string>(voc.end() - (long)std::min<size_t>(voc.size(), 12), voc.end()))
+                                              : grammar::gen_fsg(r, voc));
+                    g.push(go, 0);
+                    if (r.chance(0.6))
+                        g.utterance(0, t, false, false, r.chance(0.5), false, 16000, 0.2, false, false);
+                }
+                }
+            }
         } else if (prop == "C14") {
             std::string t = pick_tmpl(r);
             add_dec(t);
@@ -1973,6 +2349,8 @@ struct DecWorld : World {
             out.nontrivial = out.probes.count("align.hierarchy_checked") > 0;
         else if (prop == "C14")
             out.nontrivial = out.probes.count("json.checked") > 0;
+        else if (prop == "C16")
+            out.nontrivial = out.probes.count("dict.expected_accept") > 0 && (out.probes.count("dict.lookup") > 0 || out.probes.count("dec.final_result") > 0);
         else if (prop == "C11")
             out.nontrivial = out.probes.count("lat.checked") > 0;
         else if (prop == "C12")
